@@ -8,16 +8,17 @@ static const char *CN[] = {"setkey", "claim_set", "claim_del", "time_leeway", "s
 struct COp { int k = 0, a = 0, b = 0; };
 enum { VCB_NONE, VCB_SELECT, VCB_FAIL, VCB_MUTATE, VCB_KID, VCB_ALG_ONLY, VCB_MISMATCH, VCB_KEY_NOALG, VCB_N };   // the last three return 0 and leave the config in a state the key/alg policy refuses
 static const char *VCBN[] = {"none", "selects-key+alg", "fails", "mutates-token", "selects-key-by-kid", "sets-alg-without-key", "sets-alg-other-than-the-key's", "selects-key-without-alg"};
-struct VCtx { int kind; };
+struct VCtx { int kind; int other = 0; };   // other: key-selecting callbacks hand out ANOTHER key of the same kind and algorithm (what a key rotation behind a kid lookup does)
+inline const jwk_item_t *other_oct_key() { static LKey *k = nullptr; if (!k) { JwkOpts o; o.alg = "HS256"; o.priv = true; k = new LKey(jwk_json(pool().get("oct64b"), o)); } return k->item; }
 static int checker_cb(jwt_t *jwt, jwt_config_t *c) {
   VCtx *x = (VCtx *)c->ctx;
   switch (x->kind) {
-  case VCB_SELECT: c->key = keytab()[1].lk->item; c->alg = JWT_ALG_HS256; return 0;
+  case VCB_SELECT: c->key = x->other ? other_oct_key() : keytab()[1].lk->item; c->alg = JWT_ALG_HS256; return 0;
   case VCB_FAIL: return 1;
   case VCB_ALG_ONLY: c->key = nullptr; c->alg = JWT_ALG_HS256; return 0;
   case VCB_MISMATCH: c->key = keytab()[1].lk->item; c->alg = JWT_ALG_HS512; return 0;
   case VCB_KEY_NOALG: c->key = keytab()[0].lk->item; c->alg = JWT_ALG_NONE; return 0;
-  case VCB_KID: { jwt_value_t v = val_get(JWT_VALUE_STR, "kid"); if (jwt_header_get(jwt, &v) == JWT_VALUE_ERR_NONE && v.str_val && !strcmp(v.str_val, "known")) { c->key = keytab()[1].lk->item; c->alg = JWT_ALG_HS256; } return 0; }   // per-token choice: must not stick to the checker
+  case VCB_KID: { jwt_value_t v = val_get(JWT_VALUE_STR, "kid"); if (jwt_header_get(jwt, &v) == JWT_VALUE_ERR_NONE && v.str_val && !strcmp(v.str_val, "known")) { c->key = x->other ? other_oct_key() : keytab()[1].lk->item; c->alg = JWT_ALG_HS256; } return 0; }   // per-token choice: must not stick to the checker
   case VCB_MUTATE: { jwt_value_t v = val_str("zz", "1", 1); jwt_claim_set(jwt, &v); jwt_header_del(jwt, "typ"); return 0; }
   }
   return 0;
@@ -64,7 +65,7 @@ static std::string cop_str(const COp &o) {
   case C_CLAIM_SET: s += std::string(o.a % 3 == 0 ? "iss" : o.a % 3 == 1 ? "sub" : "exp!") + "," + (o.b & 1 ? "issuer" : "other"); break;
   case C_CLAIM_DEL: s += o.a % 2 ? "sub" : "iss"; break;
   case C_LEEWAY: s += std::string(o.a & 1 ? "nbf" : "exp") + "," + std::to_string(CLEE[o.b % 4]); break;
-  case C_SETCB: s += VCBN[o.a % VCB_N]; break;
+  case C_SETCB: s += VCBN[o.a % VCB_N]; if ((o.b % 3) == 2 && (o.a % VCB_N == VCB_SELECT || o.a % VCB_N == VCB_KID)) s += ",other-key-of-the-same-kind"; break;
   case C_CLOCK: s += std::to_string(CLK[o.a % 5]); break;
   case C_VERIFY: s += TOKENS[o.a % TOKENS.size()].first; break;
   }
@@ -78,7 +79,7 @@ static VRes capply(CExec &x, const COp &o, bool *is_verify = nullptr) {
   case C_CLAIM_SET: r.ret = jwt_checker_claim_set(c, o.a % 3 == 0 ? JWT_CLAIM_ISS : o.a % 3 == 1 ? JWT_CLAIM_SUB : JWT_CLAIM_EXP, o.b & 1 ? "issuer" : "other"); break;
   case C_CLAIM_DEL: r.ret = jwt_checker_claim_del(c, o.a % 2 ? JWT_CLAIM_SUB : JWT_CLAIM_ISS); break;
   case C_LEEWAY: r.ret = jwt_checker_time_leeway(c, o.a & 1 ? JWT_CLAIM_NBF : JWT_CLAIM_EXP, (time_t)CLEE[o.b % 4]); break;
-  case C_SETCB: { int kind = o.a % VCB_N; x.cx.kind = kind; r.ret = jwt_checker_setcb(c, kind == VCB_NONE ? nullptr : checker_cb, kind == VCB_NONE ? nullptr : &x.cx); break; }
+  case C_SETCB: { int kind = o.a % VCB_N; x.cx.kind = kind; x.cx.other = (o.b % 3) == 2; r.ret = jwt_checker_setcb(c, kind == VCB_NONE ? nullptr : checker_cb, kind == VCB_NONE ? nullptr : &x.cx); break; }
   case C_CLOCK: set_now((time_t)CLK[o.a % 5]); break;
   case C_ERRCLR: jwt_checker_error_clear(c); break;
   case C_VERIFY: { auto &t = TOKENS[o.a % TOKENS.size()]; if (is_verify) *is_verify = true; r.ret = jwt_checker_verify(c, t.first == "NULL" ? nullptr : t.second.c_str()); r.err = jwt_checker_error(c); r.msg = jwt_checker_error_msg(c) ? jwt_checker_error_msg(c) : ""; break; }
